@@ -59,8 +59,35 @@ def check_body(rep, key, exp, im, allowed_types, cfg):
                 % sorted(extra), where=exp.label())
 
 
+HEAP_LITERALS = {"Box", "Pin", "Rc", "Arc", "Vec", "String", "alloc", "boxed", "__alloc", "pin", "rc", "sync", "vec", "std"}
+DYN_OK_OWNERS = ("gen_delegation_method", "push_impl_t_bounds")
+
+
+def generator_rule(rep):
+    """G (universal): the generator cannot emit a heap / boxing identifier at all, and `dyn` only from the
+    emitters of the dynamic-delegation forms. A token that no emitter can produce appears in no expansion."""
+    from ..grules import load_gen, fn_of, strip_generics, where
+    from .c19 import literal_inventory
+    facts, _ = load_gen()
+    inv, _seps = literal_inventory(facts)
+    n = 0
+    for owner, lits in sorted(inv.items()):
+        for lit, kind, wh in lits:
+            n += 1
+            if lit in HEAP_LITERALS:
+                rep.add("G-ZERO", "%s emits %s" % (owner, lit),
+                        "`%s` can emit the identifier `%s`: generated code could box / allocate (no emitter may produce it today)" % (owner, lit), where=wh)
+            if lit == "dyn" and not any(o in owner for o in DYN_OK_OWNERS):
+                rep.add("G-ZERO", "%s emits dyn" % owner,
+                        "`%s` can emit `dyn` although it is not one of the dynamic-delegation emitters" % owner, where=wh)
+    rep.count("generator_literals_scanned", n)
+    ndyn = sum(1 for lits in inv.values() for l, _, _ in lits if l == "dyn")
+    rep.count("dyn_literal_sites", ndyn)
+
+
 def run(tier):
     rep = Report("C14", tier, "translation_validation")
+    generator_rule(rep)
     configs = ["plain", "unimock_test"] if tier == "quick" else ["plain", "test", "unimock", "unimock_test"]
     programs = 0
     for cfg in configs:
@@ -127,6 +154,8 @@ def run(tier):
                     allowed = heapy_types(sig_types(o)) if o else set()
                     check_body(rep, "%s :: %s" % (key0, name), exp, im, allowed, cfg)
     rep.floor("bodies_checked", 150)
+    rep.floor("generator_literals_scanned", 80)
+    rep.floor("dyn_literal_sites", 2)
     rep.coverage.update({"programs": programs, "disagreements_checked": rep.counters.get("bodies_checked", 0),
                          "explanation": "for every generated body of a static-delegation expansion (fn, mod, trait with Self/selector delegation, non-ref impl block; async_trait excluded): no callee in alloc, no InstanceKind::Virtual callee, no callee whose Self is dyn, no unsizing adjustment, and no Box/Rc/Arc/Vec/String/dyn type among the body's expression types or the generated signatures beyond those the user's own signature contains; async trait methods return an opaque future, never Pin<Box<..>>. A wrapper without allocation site or dynamic call adds zero allocations at any call depth (each level is such a wrapper).",
                          "configs": configs})
